@@ -103,14 +103,14 @@ def units_for(chk, F):
     fl = for_loops(arm["body"])
     regs = [x for x in fl if H.expr_str(x[0]).startswith("ctx.registry.units")]
     if len(regs) == 0:
-        line, pushes = units_for_pipeline(chk, fn, arm)
+        line, pushes, OUT = units_for_pipeline(chk, fn, arm)
     elif len(regs) != 1:
         raise AnchorLost("UnitsFor arm: expected one loop over ctx.registry.units, found %d" % len(regs))
     else:
-        line, pushes = units_for_loop(chk, fn, arm, regs[0])
+        line, pushes, OUT = units_for_loop(chk, fn, arm, regs[0])
     where = "%s:%d" % (fn.file, line)
     # base unit push
-    outside = [c for c in H.method_calls(arm["body"], "push") if (H.local_name(c["recv"]) or ("",))[0] == "out" and c not in pushes]
+    outside = [c for c in H.method_calls(arm["body"], "push") if (H.local_name(c["recv"]) or ("",))[0] == OUT and c not in pushes]
     ok_base = False
     if len(outside) == 1:
         for kind, node in H.stmts_of(arm["body"]):
@@ -123,19 +123,24 @@ def units_for(chk, F):
                "the base unit itself is appended only when X is that base unit to the power one",
                "a name is appended to the listing outside the dimensionality filter without requiring exponent 1 (%d extra push sites)" % len(outside))
     # grouping: flush on category change and after the loop
-    groups = [x for x in fl if H.expr_str(x[0]) == "out"]
+    groups = [x for x in fl if H.expr_str(x[0]) == OUT]
     if len(groups) != 1:
         raise AnchorLost("UnitsFor arm: no grouping loop over `out`")
     git, gpat, gbody, gline, gloop = groups[0]
-    inloop = [c for c in H.method_calls(gbody, "push") if (H.local_name(c["recv"]) or ("",))[0] == "categories"]
-    allcat = [c for c in H.method_calls(arm["body"], "push") if (H.local_name(c["recv"]) or ("",))[0] == "categories"]
+    # roles by use: CUR receives every name (a top-level push of the loop body), CAT receives the flushed groups
+    tops = [n for k, n in H.stmts_of(gbody) if k in ("expr", "tail") and n.get("k") == "MethodCall" and n["name"] == "push" and H.local_name(n["recv"])]
+    CUR = H.local_name(tops[0]["recv"])[0] if tops else None
+    others = [H.local_name(c["recv"])[0] for c in H.method_calls(gbody, "push") if H.local_name(c["recv"]) and H.local_name(c["recv"])[0] != CUR]
+    CAT = others[0] if others else None
+    inloop = [c for c in H.method_calls(gbody, "push") if (H.local_name(c["recv"]) or ("",))[0] == CAT]
+    allcat = [c for c in H.method_calls(arm["body"], "push") if (H.local_name(c["recv"]) or ("",))[0] == CAT]
     after = [c for c in allcat if c not in inloop]
-    curpush = [n for k, n in H.stmts_of(gbody) if k in ("expr", "tail") and n.get("k") == "MethodCall" and n["name"] == "push" and (H.local_name(n["recv"]) or ("",))[0] == "cur"]
+    curpush = [n for k, n in H.stmts_of(gbody) if k in ("expr", "tail") and n.get("k") == "MethodCall" and n["name"] == "push" and (H.local_name(n["recv"]) or ("",))[0] == CUR]
     chk.decide(len(inloop) == 1 and len(after) == 1 and after[0]["line"] > gline, "units-for-filter", FK, "flush-on-change-and-at-end", "%s:%d" % (fn.file, gline),
                "a group is flushed on every category change and once more after the loop (the last group is not lost)",
                "grouping flush sites: %d inside the loop, %d after it (expected 1 and 1)" % (len(inloop), len(after)))
     chk.decide(len(curpush) == 1, "units-for-filter", FK, "every-name-kept", "%s:%d" % (fn.file, gline), "every listed name is added to the current group unconditionally", "names are not unconditionally added to the current group")
-    srt = [c for c in H.method_calls(arm["body"]) if c["name"] in ("sort", "sort_by", "sort_by_key") and (H.local_name(c["recv"]) or ("",))[0] == "out"]
+    srt = [c for c in H.method_calls(arm["body"]) if c["name"] in ("sort", "sort_by", "sort_by_key") and (H.local_name(c["recv"]) or ("",))[0] == OUT]
     chk.decide(len(srt) == 1 and line < srt[0]["line"] < gline, "units-for-filter", FK, "sorted-before-grouping", "%s:%d" % (fn.file, srt[0]["line"] if srt else 0),
                "the list is sorted by category before grouping (each category forms one group)", "the listing is not sorted between filtering and grouping")
 
@@ -146,7 +151,17 @@ def units_for_loop(chk, fn, arm, reg):
     chk.decide(H.expr_str(it) == "ctx.registry.units.iter()", "units-for-filter", FK, "iterates-all-units", where,
                "every registered unit is considered", "the candidate loop iterates %s" % H.expr_str(it))
     stm = H.stmts_of(body)
-    pushes = [c for c in H.method_calls(body, "push") if (H.local_name(c["recv"]) or ("",))[0] == "out"]
+    OUT = None
+    for kind, node in stm:
+        e = node if kind != "let" else None
+        if e and e.get("k") == "If" and e["cond"].get("k") == "Binary" and e["cond"]["op"] == "Eq":
+            cand = [c for c in H.method_calls(e["then"], "push") if H.local_name(c["recv"])]
+            if cand:
+                OUT = H.local_name(cand[0]["recv"])[0]
+    if OUT is None:
+        allp = [c for c in H.method_calls(body, "push") if H.local_name(c["recv"])]
+        OUT = H.local_name(allp[0]["recv"])[0] if allp else "out"
+    pushes = [c for c in H.method_calls(body, "push") if (H.local_name(c["recv"]) or ("",))[0] == OUT]
     conts = [c for c in hir_walk(body) if c.get("k") in ("Continue", "Break", "Ret")]
     # the push is directly inside `if val.unit == unit.unit`
     ok_push = False
@@ -154,7 +169,7 @@ def units_for_loop(chk, fn, arm, reg):
         e = node if kind != "let" else None
         if e and e.get("k") == "If" and e["cond"].get("k") == "Binary" and e["cond"]["op"] == "Eq":
             sides = {H.expr_str(e["cond"]["a"]), H.expr_str(e["cond"]["b"])}
-            inner = [c for c in H.method_calls(e["then"], "push") if (H.local_name(c["recv"]) or ("",))[0] == "out"]
+            inner = [c for c in H.method_calls(e["then"], "push") if (H.local_name(c["recv"]) or ("",))[0] == OUT]
             if sides == {"val.unit", "unit.unit"} and len(inner) == 1 and e.get("else") is None:
                 ok_push = True
     chk.decide(ok_push and len(pushes) == 1, "units-for-filter", FK, "push-behind-equal-dimensionality", where,
@@ -175,7 +190,7 @@ def units_for_loop(chk, fn, arm, reg):
     # no adaptor that could drop candidates
     mc = [m["name"] for m in H.method_calls(it)]
     chk.decide(mc == ["iter"], "units-for-filter", FK, "no-dropping-adaptor", where, "no filtering adaptor on the candidate iterator", "candidate iterator uses %s" % mc)
-    return line, pushes
+    return line, pushes, OUT
 
 
 DROPPING = {"filter", "filter_map", "skip", "take", "step_by", "skip_while", "take_while", "map_while", "flat_map", "flatten", "nth", "rev",
@@ -188,8 +203,12 @@ def units_for_pipeline(chk, fn, arm):
     body = H.simplify(arm["body"])
     init = None
     for kind, n in H.stmts_of(body):
-        if kind == "let" and n["pat"].get("name") == "out" and n.get("init"):
-            init = n
+        if kind == "let" and n.get("init") and n["pat"].get("name"):
+            e0 = n["init"]
+            while e0.get("k") == "MethodCall":
+                e0 = e0["recv"]
+            if H.expr_str(e0) == "ctx.registry.units":
+                init = n
     if init is None:
         raise AnchorLost("UnitsFor arm: neither a loop over ctx.registry.units nor `let out = <iterator chain>`")
     line = init["line"]
@@ -267,7 +286,7 @@ def units_for_pipeline(chk, fn, arm):
                "a unit is listed only behind `val.unit == unit.unit`", "no `val.unit == unit.unit` filter in the candidate pipeline")
     if alias and not any(i["verdict"] == "finding" and i["rule"] == "units-for-filter" for i in chk.instances):
         chk.ok("units-for-filter", FK, "skips-only-pure-aliases", where, "the only other unit dropped is a pure alias")
-    return line, []
+    return line, [], init["pat"]["name"]
 
 
 def factorize(chk, F):
